@@ -790,6 +790,7 @@ def follow_up(ex, d, case, problems, where):
     ex.env['monitor'].errors.clear()
     nviol = len(st.violations)
     pre = st.snapshot()
+    len_log_pre = len(st.log)
     # the stitched basis of the follow-up run: every file it lists is unchanged in the source, so it must be reused
     latest = max(bands) if bands else None
     basis_files = []
@@ -826,6 +827,10 @@ def follow_up(ex, d, case, problems, where):
     check_inv(ex, st, {nb: {f.path: f for f in tree.files}}, problems, where + ' follow-up')
     for v in st.violations[nviol:]:
         problems.append('%s follow-up: step %d %s %s: %s' % (where, v[0], v[1], v[2], v[3]))
+    # a backup only adds files (a zero-length leftover may be completed, never removed): no removal of any kind
+    for (i_, a_, v_, p_, act_) in st.log[len_log_pre:]:
+        if v_ in ('remove_file', 'remove_dir_all') and p_ in pre:
+            problems.append('%s follow-up: %s existed and was removed by the backup (step %d %s)' % (where, p_, i_, v_))
     for p, (k, pl) in pre.items():
         n = st.nodes.get(p)
         if n is None:
